@@ -2743,6 +2743,12 @@ fn oracle_c13(fields: &[&str]) -> String {
     }
     let (na, fa) = tryrun!(run(&a, true, &pts));
     let (nb, fb) = tryrun!(run(&b, true, &pts_b));
+    // the points are points of the domain: two instances that both project nothing agree on nothing
+    for (i, p) in pts.iter().enumerate() {
+        if p[0].is_finite() && p[1].is_finite() && (fa[i][0].is_nan() || fa[i][1].is_nan()) && (fb[i][0].is_nan() || fb[i][1].is_nan()) {
+            return format!("oracle FAIL neither {a} nor {b} projects the point ({}, {}) of the domain", p[0], p[1]);
+        }
+    }
     if na != nb {
         return format!("oracle FAIL {a} counts {na}, {b} counts {nb}");
     }
